@@ -31,19 +31,27 @@ def do_mean(pixels, z_pixels, num_zones, nodata, z_nodata, out_dtype=np.float32)
     # 0 mean
     # 1 valids
 
+    # accumulate in float64 / int64: in the (float32) output dtype the running
+    # sum loses precision and the count saturates at 2**24 for large zones
+    sums = np.zeros(num_zones, dtype=np.float64)
+    counts = np.zeros(num_zones, dtype=np.int64)
+
     for tix in range(t):
+        sums[:] = 0
+        counts[:] = 0
         for rw in range(nr):
             for cl in range(nc):
                 pix = pixels[tix, rw, cl]
                 z_idx = z_pixels[rw, cl]
                 if (pix != nodata) and (z_idx != z_nodata):
-                    result[tix, z_idx, 0] += pix
-                    result[tix, z_idx, 1] += 1
+                    sums[z_idx] += pix
+                    counts[z_idx] += 1
 
         for idx in range(result.shape[1]):
-            if result[tix, idx, 1] > 0:
-                result[tix, idx, 0] = result[tix, idx, 0] / result[tix, idx, 1]
+            if counts[idx] > 0:
+                result[tix, idx, 0] = sums[idx] / counts[idx]
             else:
                 result[tix, idx, 0] = np.nan
+            result[tix, idx, 1] = counts[idx]
 
     return result
